@@ -226,7 +226,7 @@ def gen_mesh(o):
     o.d("Definition prepare_edge_is_valid (a b N : Z) : bool := %s." % bexpr(b[0].value, {"a": "a", "b": "b", "N": "N"}, {}, rel))
     pt = ast.unparse(pe)
     if "N = len(self.vertices)" not in pt or "edges_invalid = any((not is_valid(a, b) for a, b in self.edges))" not in pt \
-            or "if is_valid(a, b):\n                new_edges.append(utils.keyify(a, b))" not in pt:
+            or not re.search(r"if is_valid\(a, b\):\n\s+new_edges\.append\(utils\.keyify\(", pt):
         T.fail(rel, pe, "unexpected _prepare_edges")
 
     rel = "mouette/mesh/mesh.py"
@@ -303,6 +303,9 @@ def gen_xyz(o):
         T.fail(rel, loop, "unexpected vertex format %r" % fc[0])
     o.d("Definition xyz_exp_idx : list Z := %s." % zlist([subscript_const(a, loop.target.id, rel) for a in fc[1]]))
 
+    names = sorted(set(re.findall(r"has_attribute\('(\w+)'\)", ast.unparse(ex))))
+    o.d("(* vertex attributes export_xyz treats specially (written as extra columns): outside the model *)")
+    o.d("Definition xyz_exp_special_attrs : list string := %s." % ("[" + "; ".join(coq_str(n) for n in names) + "]"))
     im = T.find_def(tree, "import_xyz", rel)
     o.src("import_xyz", src, im)
     loop = find_one(walk_type(im, ast.For), lambda s: ast.unparse(s.iter) == "f.readlines()", rel, "readlines loop", im)
@@ -405,6 +408,9 @@ def gen_obj(o):
         T.fail(rel, floop, "unexpected face line")
     o.d("Definition obj_exp_kw_f := %s." % coq_str(kw))
 
+    names = sorted(set(re.findall(r"has_attribute\('(\w+)'\)", ast.unparse(ex))) - {"hard_edges"})
+    o.d("(* vertex / face-corner attributes export_obj treats specially (vt / vn lines, v/vt/vn index forms): outside the model *)")
+    o.d("Definition obj_exp_special_attrs : list string := %s." % ("[" + "; ".join(coq_str(n) for n in names) + "]"))
     im = T.find_def(tree, "parse_obj_data", rel)
     o.src("parse_obj_data", src, im)
     loop = find_one(im.body, lambda s: isinstance(s, ast.For) and ast.unparse(s.iter) == "data", rel, "line loop", im)
@@ -894,7 +900,7 @@ def gen_geogram(o):
         o.d("Definition geo_pos_%s : Z := %d." % (name, pos[name]))
     convs = re.findall(r"(?:if|elif) self\.data_type == Attribute\.Type\.(\w+):\n\s+self\.data = \[(.+?) for x in chunk_data\[(\d+):\]\]", t)
     if convs != [("Float", "np.float64(x)", "6"), ("Int", "int(x)", "6"), ("Bool", "bool(int(x))", "6"), ("Complex", "complex(x)", "6")] \
-            or not re.search(r"else:\n\s+self\.data = chunk_data\[6:\]", t):
+            or not re.search(r"else:\n\s+self\.data = \[unquote\(x\) for x in chunk_data\[6:\]\]", t):
         T.fail(rel, ini, "unexpected data conversions in Chunk.__init__ : %r" % (convs,))
     o.d("Definition geo_pos_data : Z := 6.")
     if pos["type"] != 0:
@@ -942,18 +948,42 @@ def gen_geogram(o):
     # export
     ea = T.find_def(tree, "export_attribute", rel)
     o.src("export_attribute", src, ea)
+    # the percent-encoding alphabets
+    consts = {}
+    for st in tree.body:
+        if isinstance(st, ast.Assign) and isinstance(st.targets[0], ast.Name) and st.targets[0].id.endswith("_SAFE_CHARACTERS"):
+            v = st.value
+            if isinstance(v, ast.Constant) and isinstance(v.value, str):
+                consts[st.targets[0].id] = v.value
+            elif isinstance(v, ast.BinOp) and isinstance(v.op, ast.Add) and isinstance(v.left, ast.Name) and v.left.id in consts and str_const(v.right) is not None:
+                consts[st.targets[0].id] = consts[v.left.id] + v.right.value
+            else:
+                T.fail(rel, st, "unexpected definition of a percent-encoding alphabet")
+    if set(consts) != {"STRING_SAFE_CHARACTERS", "NAME_SAFE_CHARACTERS"}:
+        T.fail(rel, tree, "percent-encoding alphabets not found")
+    imp = [ast.unparse(st) for st in tree.body if isinstance(st, ast.ImportFrom) and st.module == "urllib.parse"]
+    if imp != ["from urllib.parse import quote, unquote"]:
+        T.fail(rel, tree, "quote / unquote are not urllib.parse's")
+    o.d("(* characters kept as they are by the percent-encoding of string values / of user attribute names (besides letters, digits and _.-~) *)")
+    o.d("Definition geo_string_safe := %s." % coq_str(consts["STRING_SAFE_CHARACTERS"]))
+    o.d("Definition geo_name_safe := %s." % coq_str(consts["NAME_SAFE_CHARACTERS"]))
     want_ea = ("def export_attribute(f, size, container, attr, attr_name):\n"
+               "    attr_name = quote(str(attr_name), safe=NAME_SAFE_CHARACTERS)\n"
                "    f.write(f'[ATTR]\\n\"{container}\"\\n\"{attr_name}\"\\n\"{attr.type.to_string()}\"\\n{attr.type.byte_size()}\\n{attr.elemsize}\\n')\n"
                "    for i in range(size):\n"
                "        if attr.elemsize == 1:\n"
                "            if attr.type == Attribute.Type.Bool:\n"
                "                f.write(f'{int(attr[i])}\\n')\n"
+               "            elif attr.type == Attribute.Type.String:\n"
+               "                f.write(quote(str(attr[i]), safe=STRING_SAFE_CHARACTERS) + '\\n')\n"
                "            else:\n"
                "                f.write('{}\\n'.format(attr[i]))\n"
                "        else:\n"
                "            for j in range(attr.elemsize):\n"
                "                if attr.type == Attribute.Type.Bool:\n"
                "                    f.write(f'{int(attr[i][j])}\\n')\n"
+               "                elif attr.type == Attribute.Type.String:\n"
+               "                    f.write(quote(str(attr[i][j]), safe=STRING_SAFE_CHARACTERS) + '\\n')\n"
                "                else:\n"
                "                    f.write(f'{attr[i][j]}\\n')")
     if ast.unparse(ea) != want_ea:
@@ -1053,7 +1083,7 @@ def gen_geogram(o):
         T.fail(rel, im, "opposite_face / opposite_cell attributes not found")
     o.d("Definition geo_imp_opp_face := %s." % coq_str(opp[0]))
     o.d("Definition geo_imp_opp_cell := %s." % coq_str(opp[1]))
-    if "attr = container.create_attribute(chk.name.split('\"')[1], chk.data_type, chk.n_data)" not in it:
+    if "attr = container.create_attribute(unquote(chk.name.split('\"')[1]), chk.data_type, chk.n_data)" not in it:
         T.fail(rel, im, "user attribute creation not found")
     ia = ast.unparse(T.find_def(tree, "import_attribute", rel))
     want_ia = ("def import_attribute(chk: Chunk, attr: Attribute):\n    for i in range(len(chk.data) // chk.n_data):\n        val = []\n"
